@@ -497,7 +497,7 @@ impl Ctx {
     }
     pub fn end_case(&mut self) {
         self.report.cases_done = self.counter;
-        if self.last_ckpt.elapsed().as_millis() > 1500 {
+        if self.last_ckpt.elapsed().as_millis() > 8000 {
             self.checkpoint();
         }
     }
